@@ -84,7 +84,10 @@ func genSeq(rt *rapid.T) *SeqCase {
 		s := rapid.IntRange(0, 1).Draw(rt, "opener")
 		c.Ops = append(c.Ops, Op{K: "open", S: s}, Op{K: "accept", S: 1 - s})
 	}
-	c.Ops = append(c.Ops, rapid.SliceOfN(rapid.Custom(genOp), 1, 40).Draw(rt, "ops")...)
+	// rapid prefers short slices; draw the minimum length too so that long
+	// histories are common (both shrink).
+	minOps := rapid.IntRange(1, 24).Draw(rt, "min_ops")
+	c.Ops = append(c.Ops, rapid.SliceOfN(rapid.Custom(genOp), minOps, 48).Draw(rt, "ops")...)
 	return c
 }
 
@@ -252,7 +255,13 @@ func minimizeSeq(c *SeqCase, exclude bool, budget int) (*SeqCase, *SeqResult) {
 		return &y
 	}
 	best := clone(c)
-	bestRes := fails(best)
+	// A history may fail only under some schedules (e.g. a zero increment is
+	// merged with a later one if that arrives before it is flushed): give the
+	// starting point a few executions.
+	var bestRes *SeqResult
+	for i := 0; i < 6 && bestRes == nil; i++ {
+		bestRes = fails(best)
+	}
 	if bestRes == nil {
 		return c, nil
 	}
@@ -300,7 +309,7 @@ func TestSeqMachine(t *testing.T) {
 		t.Skip("sequential state machine belongs to C24")
 	}
 	rec := ev.New(t, "C24", "seq-machine",
-		"rapid: histories of <= 46 public API calls on both multiplexers (open, accept, cancelled open/accept, read incl. empty buffer, write incl. empty, close-write, close, deadlines past/future/cleared, opens beyond the backlog) executed one call at a time under random configurations, carrier buffering and read fragmentation; "+
+		"rapid: histories of <= 54 public API calls on both multiplexers (open, accept, cancelled open/accept, read incl. empty buffer, write incl. empty, close-write, close, deadlines past/future/cleared, opens beyond the backlog) executed one call at a time under random configurations, carrier buffering and read fragmentation; "+
 			"oracle: no teardown unless the test closed a side + wire reference model + per-call data/error statements; "+
 			"non-trivial: bytes were transferred and the history contains a zero-length read, an empty write, a deadline expiry, a rejected open or a cancelled open")
 	finding, known := ev.KnownClass("C24", knownZeroRead)
@@ -321,6 +330,11 @@ func TestSeqMachine(t *testing.T) {
 	var bestRes *SeqResult
 	ev.Check(t, rec, 500, 6000, func(rt *rapid.T) {
 		c := genSeq(rt)
+		if best != nil {
+			// Already minimised by minimizeSeq: do not spend rapid's shrink
+			// budget re-running (possibly schedule-dependent) variants.
+			ev.Failf(rt, rec, best, "%s\nminimal history found (%d operations): %v\nexecution:\n  %s", bestRes.Violation, len(best.Ops), best.Ops, strings.Join(bestRes.Log, "\n  "))
+		}
 		r, _ := judgeSeqStable(c, known)
 		rec.Eval()
 		for i := 0; i < r.Excluded; i++ {
@@ -378,6 +392,69 @@ func judgeWorkStable(c *WorkCase, wire, serial bool, p string) *WorkResult {
 	return r
 }
 
+// minimizeWork greedily shrinks a failing workload: drop streams, then data,
+// then simplify the environment. Schedules are not reproducible, so every
+// candidate gets several executions and is kept if any of them fails
+// definitely.
+func minimizeWork(c *WorkCase, wire, serial bool, budget int) (*WorkCase, *WorkResult) {
+	fails := func(x *WorkCase) *WorkResult {
+		for i := 0; i < 30 && budget > 0; i++ {
+			budget--
+			if r := JudgeWork(x, wire, serial); r.Violation != "" && !r.Stall {
+				return r
+			}
+		}
+		return nil
+	}
+	clone := func(x *WorkCase) *WorkCase {
+		b, _ := json.Marshal(x)
+		y := &WorkCase{}
+		json.Unmarshal(b, y)
+		return y
+	}
+	best := clone(c)
+	bestRes := fails(best)
+	if bestRes == nil {
+		return c, nil
+	}
+	try := func(edit func(x *WorkCase)) bool {
+		x := clone(best)
+		edit(x)
+		if r := fails(x); r != nil {
+			best, bestRes = x, r
+			return true
+		}
+		return false
+	}
+	// All data away at once first (makes every further execution cheap).
+	try(func(x *WorkCase) {
+		for i := range x.Streams {
+			x.Streams[i].DelayUs = 0
+			for k := 0; k < 2; k++ {
+				x.Streams[i].Dir[k] = DirScript{End: "cw", Bufs: []int{100}, StopAfter: -1}
+			}
+		}
+	})
+	for i := len(best.Streams) - 1; i >= 0; i-- {
+		if len(best.Streams) > 1 && i < len(best.Streams) {
+			try(func(x *WorkCase) { x.Streams = append(x.Streams[:i:i], x.Streams[i+1:]...) })
+		}
+	}
+	for i := range best.Streams {
+		try(func(x *WorkCase) {
+			x.Streams[i].DelayUs = 0
+			for k := 0; k < 2; k++ {
+				x.Streams[i].Dir[k] = DirScript{End: "cw", Bufs: []int{100}, StopAfter: -1}
+			}
+		})
+	}
+	try(func(x *WorkCase) { x.Frag = nil; x.PipeCap = 65536; x.Even = 0 })
+	for s := 0; s < 2; s++ {
+		try(func(x *WorkCase) { x.Cfg[s] = MuxCfg{Window: 65535, Buffers: 5, Backlog: 10} })
+	}
+	return best, bestRes
+}
+
 // canonicalConcurrentOpen is the minimal workload of the known-finding class:
 // eight OpenStream calls started at once on side 0, no data.
 func canonicalConcurrentOpen() *WorkCase {
@@ -432,8 +509,13 @@ func TestWorkload(t *testing.T) {
 			fmt.Printf("NOTE: known finding %s did not reproduce in this run\n", finding.ID)
 		}
 	}
+	var best *WorkCase
+	var bestRes *WorkResult
 	ev.Check(t, rec, 250, 4000, func(rt *rapid.T) {
 		c := genWork(rt)
+		if best != nil {
+			ev.Failf(rt, rec, best, "%s [smallest failing workload found: %d streams]", bestRes.Violation, len(best.Streams))
+		}
 		if known && c.OverlappingOpens() {
 			rec.Excluded(knownConcurrentOpen)
 		}
@@ -451,6 +533,12 @@ func TestWorkload(t *testing.T) {
 				v = ""
 			}
 			if v != "" {
+				if !r.Stall {
+					if m, mr := minimizeWork(c, p == "C24", known, 1200); mr != nil {
+						best, bestRes = m, mr
+						ev.Failf(rt, rec, best, "%s [smallest failing workload found: %d streams]", bestRes.Violation, len(best.Streams))
+					}
+				}
 				ev.Failf(rt, rec, c, "%s", v)
 			}
 		}
@@ -494,7 +582,45 @@ func TestTiming(t *testing.T) {
 			"k stalled streams (writers blocked on a full window) beside which a fresh stream must transfer up to 1 MiB; accept backlog filled (some opens cancelled) and one more open that must be rejected; many blocked calls released at once. "+
 			"oracle: every call returns within 10 s of its releasing event with the documented error; a failing schedule is re-executed twice and only reported if it fails every time; "+
 			"non-trivial: the call was observed still pending after the watch period, before the release")
-	ev.Check(t, rec, 260, 2600, func(rt *rapid.T) {
+	// Deterministic sweep first: every (scenario, release, blocking side,
+	// opening side) combination under two fixed configurations, so that no
+	// combination depends on the luck of the draw.
+	sweep := ev.New(t, "C25", "blocked-calls-sweep",
+		"every (scenario kind, releasing event, blocking side, opening side) combination under two fixed configurations (window 4096 / 5 buffers / backlog 3, and window 100 / 1 buffer / backlog 1, 7-byte carrier buffering, fragmented reads); oracle and non-trivial rule as in blocked-calls")
+	sweep.SetExhaustive("scenario kinds x releasing events (39 pairs) x blocking side x opening side x 2 configurations")
+	kinds := []string{"read", "write", "open", "accept", "stall", "backlog", "mass"}
+	for _, kind := range kinds {
+		for _, rel := range timingReleases[kind] {
+			for combo := 0; combo < 8; combo++ {
+				if ev.Shards() > 1 && combo%ev.Shards() != ev.Shard()%8 && ev.Shard() < 8 {
+					continue
+				}
+				c := &TimingCase{Kind: kind, Release: rel, Side: combo & 1, Opener: combo >> 1 & 1, PreMs: 10, DMs: 20, N: 1, K: 3}
+				if combo>>2 == 0 {
+					c.Cfg[0] = MuxCfg{Window: 4096, Buffers: 5, Backlog: 3}
+					c.Cfg[1] = c.Cfg[0]
+					c.PipeCap = 65536
+				} else {
+					c.Cfg[0] = MuxCfg{Window: 100, Buffers: 1, Backlog: 1, HeartbeatMs: 1}
+					c.Cfg[1] = c.Cfg[0]
+					c.PipeCap = 7
+					c.Frag = []int{1, 3, 4096}
+					c.Even = 1
+				}
+				c.Bytes = c.Cfg[0].Window * 64
+				r := judgeTimingStable(c)
+				sweep.Eval()
+				sweep.Class(kind + "/" + rel)
+				if r.Fail != "" {
+					ev.FailTB(t, sweep, c, "%s", r.Fail)
+				}
+				if r.NonTrivial {
+					sweep.NonTrivialDistinct(1)
+				}
+			}
+		}
+	}
+	ev.Check(t, rec, 160, 2600, func(rt *rapid.T) {
 		c := genTiming(rt)
 		r := judgeTimingStable(c)
 		rec.Eval()
@@ -600,6 +726,9 @@ func TestReplay(t *testing.T) {
 			t.Fatalf("cannot load replay: %v", err)
 		}
 		r, _ := judgeSeqStable(&c, false)
+		if os.Getenv("VERIF_DEBUG") != "" {
+			fmt.Printf("history:\n  %s\nclasses: %v\n", strings.Join(r.Log, "\n  "), r.Classes)
+		}
 		if r.Violation != "" {
 			ev.FailTB(t, rec, &c, "%s\nhistory:\n  %s", r.Violation, strings.Join(r.Log, "\n  "))
 		}
@@ -615,7 +744,7 @@ func TestReplay(t *testing.T) {
 				ev.FailTB(t, rec, &c, "%s", r.Violation)
 			}
 		}
-	case "blocked-calls":
+	case "blocked-calls", "blocked-calls-sweep":
 		var c TimingCase
 		if _, err := ev.LoadReplay(ev.ReplayPath(), &c); err != nil {
 			t.Fatalf("cannot load replay: %v", err)
